@@ -455,7 +455,10 @@ class C17(Suite):
                  "2014-11-02 01:30:00 America/Edmonton", "2014-03-09 02:30:00 America/Edmonton",
                  "2014-11-02 01:30:00 MST", "2014-11-02 00:59:59.999 America/Edmonton", "2014-11-02 02:00:00 America/Edmonton",
                  "1-01-01 00:00:00 Asia/Tokyo", "9999-12-31 23:59:59 America/Edmonton", "2014-01-02\t03:04:05",
-                 "  2014-01-02   03:04:05  ", "2014-01-02 03:04:05 MST MST", "2014--01-02 03::04:05"]
+                 "  2014-01-02   03:04:05  ", "2014-01-02 03:04:05 MST MST", "2014--01-02 03::04:05",
+                 "2014-01-02\n03:04:05", "2014-01-02\r\n03:04:05\n", "2014-01-02\x0b03:04:05\x0c", "2014-01-02\x1c03:04:05\x1f",
+                 "2014-01-02\x1d03:04:05\x1eUTC", "2014-01-02 03:04:05\tAmerica/Edmonton", "2014-01-02 03:04:05 america/edmonton",
+                 "2014-01-02 03:04:05 UTC ", "٢٠١٤-01-02 03:04:05" if False else "2014-01-02 03:04:05 Z", "2014-01-02T03:04:05"]
         for t in fixed:
             yield {"kind": "parse", "text": t}
         for _ in range(n):
@@ -539,7 +542,9 @@ class C17(Suite):
                  "1s2s", "1m1y", "1y1w1d1h1m1s1ms1us1ns", "1ns", "999ns", "1000ns", "1999ns", "1s1000ms", "1s1000000us",
                  "0y0w0d0h0m0s", "00001s", "1y 2w 3d 4h 5m 6s 7ms 8us 9ns", "1 year 2 weeks 3 days 4 hours 5 minutes 6 seconds",
                  "250ms", "250m s", "250 ms", "1m250ms", "5s20us", "1h1s", "1h 1s", "1h\t1s", "1H1S", "1e3s", "1_0s", "+1s",
-                 "-1s", "1s-", "1.5.5s", "1..5s", "999999999d", "1000000000d", "999999999d86399.999999s", "2737907y"]
+                 "-1s", "1s-", "1.5.5s", "1..5s", "999999999d", "1000000000d", "999999999d86399.999999s", "2737907y",
+                 "1h\n1s", "1s\n", "\x0b1s\x0c", "1\x1cs", "1s\x1f", "1 h 1 m 1 s", "1m1s1ms1us", "1.5 seconds", "1.5SEC", "0.000001s",
+                 "0.0000001s", "1.0s", "01.50s", "1y1y", "1s1.5s", "1w1d1w"]
         for t in fixed:
             yield {"kind": "durp", "text": t}
         for _ in range(n):
